@@ -11,6 +11,8 @@ from __future__ import annotations
 
 import implenv  # noqa: F401
 
+import asyncio
+
 import vtime
 import workrun
 from common import NONE, A, Model, Result, Rng, parse_sx, sx
@@ -33,7 +35,7 @@ def table_jobs(full: bool, rng: Rng) -> list[dict]:
     outcomes = [dict(o) for o in PLAIN]
     for api in APIS:
         for pre in (PRES if full else [PRES[0], rng.choice(PRES[1:])]):
-            outcomes.append({"k": "eager", "pre": pre, "api": api})
+            outcomes.append({"k": "eager", "pre": pre, "api": api, "guard": len(outcomes) % 3 == 0})
     jobs = []
     n = 0
     for o in outcomes + [{"k": "convFail"}]:
@@ -191,6 +193,77 @@ async def run_scenario(sc: dict) -> WorkerRun:
     return run
 
 
+# ------------------------------------------------------------------ synchronous actors (thread / process executors; real time)
+class _BadInput(Exception):
+    """an exception that cannot be rebuilt from its pickled form (two required arguments, one kept by Exception.__reduce__)"""
+
+    def __init__(self, field: str, reason: str) -> None:
+        super().__init__(f"{field}: {reason}")
+        self.field, self.reason = field, reason
+
+
+def _sync_good(x: int = 0) -> int:
+    return x + 1
+
+
+def _sync_bad(x: int = 0) -> int:
+    raise _BadInput("amount", "must be positive")
+
+
+def _sync_raise(x: int = 0) -> int:
+    raise ValueError("plain failure")
+
+
+async def sync_actors(in_process: bool) -> dict:
+    """plain `def` actors run through the executors: each message's disposition follows its own outcome — whatever happened
+    to the executor in an earlier delivery"""
+    from repid import BasicConverter, Connection, InMemoryBucketBroker, InMemoryMessageBroker, Job, Router, Worker
+    broker = InMemoryMessageBroker()
+    conn = Connection(broker, results_bucket_broker=InMemoryBucketBroker(use_result_bucket=True))
+    router = Router()
+    for fn, name in ((_sync_good, "good"), (_sync_bad, "bad"), (_sync_raise, "raises")):
+        router.actor(fn, name=name, run_in_process=in_process, converter=BasicConverter)
+    await broker.queue_declare("default")
+    order = ["good", "raises", "good", "bad", "good", "good"]
+    for i, name in enumerate(order):
+        await Job(name, args={"x": i}, id_=f"s{i}", store_result=True, result_id=f"sres{i}", _connection=conn).enqueue()
+    w = Worker(routers=[router], messages_limit=len(order), tasks_limit=1, handle_signals=[], _connection=conn)
+    finished = True
+    try:
+        await asyncio.wait_for(w.run(), 90)
+    except asyncio.TimeoutError:
+        finished = False
+    q = broker.queues["default"]
+    out = {"finished": finished, "dead": sorted(m.key.id_ for m in q.dead), "waiting": sorted(m.key.id_ for m in q.simple._queue),
+           "processing": sorted(m.key.id_ for m in q.processing), "results": {}}
+    for i, name in enumerate(order):
+        b = await Job(name, result_id=f"sres{i}", _connection=conn).result
+        out["results"][f"s{i}"] = None if b is None else [b.success, b.data]
+    return out
+
+
+def part_sync_actors(res: Result) -> None:
+    import asyncio as _a
+    for in_process in (False, True):
+        loop = _a.new_event_loop()
+        try:
+            o = loop.run_until_complete(sync_actors(in_process))
+        finally:
+            loop.close()
+        res.dist["sync-actors:" + ("process" if in_process else "thread")] += 6
+        res.note(("sync-actors", in_process))
+        want_dead = ["s1", "s3"]
+        ok = o["finished"] and o["dead"] == want_dead and not o["waiting"] and not o["processing"] and \
+            all(o["results"][f"s{i}"] == [True, str(i + 1)] for i in (0, 2, 4, 5)) and \
+            all(o["results"][f"s{i}"] is not None and o["results"][f"s{i}"][0] is False for i in (1, 3))
+        if not ok:
+            res.bad("impl", "exactly one, correct broker action per delivery: synchronous actors run through the "
+                            + ("process" if in_process else "thread") + " executor — a message's disposition did not follow its own outcome",
+                    case={"label": "sync-actors", "run_in_process": in_process,
+                          "messages": ["s0 good", "s1 raises ValueError", "s2 good", "s3 raises an unpicklable exception", "s4 good", "s5 good"]},
+                    observed=o, expected={"dead": want_dead, "acked": ["s0", "s2", "s4", "s5"]})
+
+
 def run(ctx) -> Result:
     tier, seed = ctx["tier"], ctx["seed"]
     res = Result("C02")
@@ -228,6 +301,7 @@ def run(ctx) -> Result:
             r = vtime.run(lambda loop, s=sc: run_scenario(s), budget=120_000_000)
             check_run(r, model, res, f"table-{kind}-{pol_us}")
             res.dist[f"broker:{kind}"] += len(jobs)
+    part_sync_actors(res)
     return res
 
 
